@@ -759,7 +759,7 @@ func randomMapTrace(id int, seed int64, steps int, out *json.Encoder, fixed *map
 			}
 		case x < w[8]:
 			before := r.nextR
-			r.exec(absOp{Op: "root", H: h, Fault: (profile == "versions" || profile == "general") && !cfg.InMem && rng.Intn(5) == 0})
+			r.exec(absOp{Op: "root", H: h, Fault: (profile == "versions" || profile == "general" || profile == "c08") && !cfg.InMem && rng.Intn(5) == 0})
 			if r.nextR != before {
 				cp := map[int]int{}
 				for k, v := range sh.live[h] {
